@@ -33,7 +33,7 @@ def run(report: Report, tier, seed):
                   "constructors are summarised as pure records; class facts: Bool instance <=> bool type spec, equal type specs agree on bool-ness / dynamic-ness / static length")
     run_contracts(report, [("contracts.c06_layout", "ConsecutiveThingNum", "O6.14"), ("contracts.c06_layout", "BoolSequenceLength", "O6.13"),
                            ("contracts.c07_index", "IndexTuple", "O7.1"), ("contracts.c06_uint", "UintDecode", "O7.9"),
-                           ("contracts.c06_uint", "BoolDecode", "O7.10")])
+                           ("contracts.c06_uint", "BoolDecode", "O7.10"), ("contracts.c06_uint", "UintDecodeLink", "O7.11")])
     jobs = jobs_for(tier, seed + 1)
     res = A.pool_map(A.decode_case, jobs)
     ran = sum(r["ran"] for r in res)
@@ -64,6 +64,11 @@ def run(report: Report, tier, seed):
         report.violation(Violation(key=f"namedtuple:{b['job'][0]}:{b['job'][1]}", what=b["problems"][0][:400], replay={"input": {"namedtuple": b["job"]}, "teal": b.get("teal")}, confirmed_native=True))
     report.extra["explanation"] = "P: _index_tuple offset arithmetic (pyvc); B: decode/element access against algosdk on generated shapes"
     def srch(fn, obs):
+        if fn.endswith("Uint.decode"):
+            from checks.c06 import uint_class_replay
+            w = uint_class_replay()
+            if w:
+                return w
         if fn.endswith("Bool.decode"):
             from checks.c06 import bool_codec_replay
             w = bool_codec_replay("decode")
